@@ -546,7 +546,7 @@ Section ApLeaves.
 
   Theorem num_agree_scalar : forall t, scalar_ty t = true -> (scalar_has_f64 t = true -> float_roundtrip cf = true) -> num_agree t.
   Proof.
-    induction t; intros Ht Hf; cbn [scalar_ty scalar_has_f64] in Ht, Hf; try discriminate Ht;
+    induction t as [| | | |it| | | | | | | | |t1 IHt|t1 IHt|t1 IHt1|ts|ts|kk t1 IHt1|fs|vs]; intros Ht Hf; cbn [scalar_ty scalar_has_f64] in Ht, Hf; try discriminate Ht;
       try (apply num_agree_reject; reflexivity).
     - apply num_agree_ignored.
     - apply num_agree_int.
@@ -556,7 +556,9 @@ Section ApLeaves.
   Qed.
 
   Lemma scalar_owned : forall t, scalar_ty t = true -> owned_ty t = true.
-  Proof. induction t; intros Ht; cbn [scalar_ty owned_ty] in *; try discriminate Ht; try reflexivity; apply IHt, Ht. Qed.
+  Proof.
+    induction t as [| | | |it| | | | | | | | |t1 IHt|t1 IHt|t1 IHt1|ts|ts|kk t1 IHt1|fs|vs]; intros Ht; cbn [scalar_ty owned_ty] in *; try discriminate Ht; try reflexivity; apply IHt, Ht.
+  Qed.
 
   (* from the reader-state form to from_str on the literal alone *)
   Lemma num_agree_text t n : num_agree t -> num_ok n = true ->
@@ -614,7 +616,7 @@ Theorem C06_value_ap_all : forall cf fx (it : Ty.intty) n, arbitrary_precision c
   let v := VNum (NLit lit) in
   let E := mkEnv RSlice TEof cf in
   (* the Value routes: str::parse — the literal's exact integer value iff it has neither fraction nor exponent, its sign is
-     admitted by the target and the value is in range; never another value *)
+     accepted by the target and the value is in range; never another value *)
   from_value_owned cf fx (TInt it) v =
     (if lit_is_int n && (int_signed it || negb (nneg n)) && Ty.in_range it (lit_int n)
      then VOk (DInt (lit_int n)) else VErr InvalidNumber 0 0)
@@ -665,7 +667,7 @@ Lemma claim_ap_scalar fx lit : forall t fuel, scalar_ty t = true -> (ty_depth t 
   claim_ap fx fuel t (VNum (NLit lit)) = negb (scalar_excluded t lit).
 Proof.
   unfold scalar_excluded.
-  induction t; intros fuel Ht Hf; cbn [scalar_ty] in Ht; try discriminate Ht; cbn [ty_depth] in Hf;
+  induction t as [| | | |it| | | | | | | | |t1 IHt|t1 IHt|t1 IHt1|ts|ts|kk t1 IHt1|fs|vs]; intros fuel Ht Hf; cbn [scalar_ty] in Ht; try discriminate Ht; cbn [ty_depth] in Hf;
     (destruct fuel as [|f]; [lia|]); cbn [claim_ap scalar_core]; try reflexivity.
   - rewrite negb_involutive. reflexivity.
   - apply IHt; [exact Ht|lia].
@@ -756,6 +758,21 @@ Example f64_roundtrip_agrees :
   from_value_owned ap_cfar ap_fx0 TF64 (VNum (NLit lit_2p53p1_0)) = VOk (DFloat 4845873199050653696)
   /\ from_input_typed Ear TF64 lit_2p53p1_0 = TOk (DFloat 4845873199050653696).
 Proof. split; vm_compute; reflexivity. Qed.
+(* ... and near the overflow threshold the default float path accepts (finding F11) what std rejects: success against failure *)
+Definition lit_f11 : bytes := [49; 55; 57; 55; 54; 57; 51; 49; 51; 52; 56; 54; 50; 51; 49; 53; 57; 57; 101; 50; 57; 49].   (* 179769313486231599e291 *)
+Example f64_default_path_accepts_overflow :
+  from_value_owned ap_cfa ap_fx0 TF64 (VNum (NLit lit_f11)) = VErr NumberOutOfRange 0 0
+  /\ from_input_typed Ea TF64 lit_f11 = TOk (DFloat 9218868437227405311)
+  /\ from_input_typed Ear TF64 lit_f11 = TErr NumberOutOfRange 22.
+Proof. repeat split; vm_compute; reflexivity. Qed.
+(* f32 is outside the universe (as in the default build's C16).  Not proved; evaluated: without float_roundtrip the routes differ
+   (1e39: the Value route refuses the infinite f32, the text route returns `1e39f64 as f32` = inf), with float_roundtrip they
+   agree on this literal *)
+Example f32_not_covered :
+  from_value_owned ap_cfa ap_fx0 TF32 (VNum (NLit [49; 101; 51; 57])) = VErr NumberOutOfRange 0 0
+  /\ from_input_typed Ea TF32 [49; 101; 51; 57] = TOk (DFloat 9218868437227405312)
+  /\ from_input_typed Ear TF32 [49; 101; 51; 57] = TErr NumberOutOfRange 4.
+Proof. repeat split; vm_compute; reflexivity. Qed.
 (* F20 (fixed): an out-of-range literal is an error on both routes *)
 Example f64_overflow_both_fail : from_value_owned ap_cfar ap_fx0 TF64 (VNum (NLit [49; 101; 57; 57; 57])) = VErr NumberOutOfRange 0 0
   /\ from_input_typed Ear TF64 [49; 101; 57; 57; 57] = TErr NumberOutOfRange 5.
